@@ -249,10 +249,13 @@ def _jit_histories(nn, jnp, jax, fails, tier):
   x = jnp.linspace(-2.0, 2.0, 12).reshape(3, 4)
   cases = 0
 
+  keep_alive = []     # classes stay referenced: a collected class could hand its id (and so its hash) to a later one
+
   def make_act(kind):
     class Act(nn.Module):           # every call: a new class with the same module / qualname / fields
       def __call__(self, x):
         return {'tanh': jnp.tanh, 'relu': jax.nn.relu, 'neg': lambda v: -v}[kind](x)
+    keep_alive.append(Act)
     return Act
 
   def make_cfg(scale):
@@ -262,6 +265,7 @@ def _jit_histories(nn, jnp, jax, fails, tier):
 
       def apply(self, v):
         return v * scale
+    keep_alive.append(Cfg)
     return Cfg
 
   class Block(nn.Module):
@@ -411,12 +415,87 @@ def _method_transforms(nn, jnp, jax, fails, tier):
   return cases
 
 
+def _autonames(nn, jnp, jax, fails, tier):
+  """auto-named sub-modules created inside the branches / body of nn.cond, nn.switch, nn.while_loop and more of the same class
+  created afterwards in the same compact method: the init tree and the outputs equal the Python control flow"""
+  cases = 0
+  x = jnp.linspace(-1.0, 1.0, 6).reshape(2, 3)
+
+  def make(kind, lifted):
+    class M(nn.Module):
+      @nn.compact
+      def __call__(self, x, sel):
+        x = nn.Dense(3)(x)                         # Dense_0
+
+        def br_a(mdl, x):
+          return nn.Dense(3)(x)                     # Dense_1 (created inside the construct)
+
+        def br_b(mdl, x):
+          return nn.Dense(3)(x) * 2.0
+        if kind == 'cond':
+          y = nn.cond(sel > 0, br_a, br_a, self, x) if lifted else br_a(self, x)
+        elif kind == 'switch':
+          y = nn.switch(0, [br_a, br_a], self, x) if lifted else br_a(self, x)
+        else:
+          def cond_fn(mdl, c):
+            return c[0] < 1
+
+          def body_fn(mdl, c):
+            return (c[0] + 1, nn.Dense(3)(c[1]))
+          if self.is_initializing() or not lifted:
+            y = body_fn(self, (0, x))[1]
+          else:
+            y = nn.while_loop(cond_fn, body_fn, self, (0, x))[1]
+        return nn.Dense(3)(y) + nn.Dense(3)(x)      # Dense_2, Dense_3 (created after it)
+    return M()
+  for kind in ('cond', 'switch', 'while_loop'):
+    cases += 1
+    plain, lift = make(kind, False), make(kind, True)
+    try:
+      v_p = plain.init(jax.random.key(0), x, 1)
+      v_l = lift.init(jax.random.key(0), x, 1)
+      if sorted(v_l['params']) != sorted(v_p['params']) or not _close(v_p, v_l):
+        fails.append(dict(inputs=dict(program='auto-named Dense inside and after the lifted construct', transform=kind, phase='init'),
+                          observed=f"init tree {sorted(v_l['params'])} / values differ from the Python control flow {sorted(v_p['params'])}", violated='init-tree-equal'))
+        continue
+      if not _close(plain.apply(v_p, x, 1), lift.apply(v_p, x, 1)):
+        fails.append(dict(inputs=dict(program='auto-named Dense inside and after the lifted construct', transform=kind), observed='outputs differ from the Python control flow', violated='outputs-equal'))
+    except Exception as e:  # noqa
+      fails.append(dict(inputs=dict(program='auto-named Dense inside and after the lifted construct', transform=kind), observed=f'raised {e!r}'[:300], violated='init-tree-equal'))
+  # a write inside the loop condition to a carried collection still raises
+  cases += 1
+
+  class Poll(nn.Module):
+    @nn.compact
+    def __call__(self, x):
+      polls = self.variable('state', 'polls', lambda: jnp.zeros(()))
+
+      def cond_fn(mdl, c):
+        p = mdl.variable('state', 'polls', lambda: jnp.zeros(()))
+        p.value = p.value + 1.0           # the condition may read, not write
+        return c < 3
+
+      def body_fn(mdl, c):
+        return c + 1
+      if self.is_initializing():
+        return x
+      return nn.while_loop(cond_fn, body_fn, self, jnp.zeros((), jnp.int32), carry_variables='state')
+  vp = Poll().init(jax.random.key(0), x)
+  try:
+    Poll().apply(vp, x, mutable=['state'])
+    fails.append(dict(inputs=dict(program='write to a carried collection inside the while_loop condition'), observed='the write was accepted (and silently dropped) instead of raising', violated='immutable-write-raises'))
+  except Exception as e:  # noqa
+    if 'immutable' not in str(e).lower() and 'Modify' not in type(e).__name__:
+      fails.append(dict(inputs=dict(program='write to a carried collection inside the while_loop condition'), observed=f'unexpected error {e!r}'[:200], violated='immutable-write-raises'))
+  return cases
+
+
 def run(tier, seed):
   import jax
   import jax.numpy as jnp
   import flax.linen as nn
   cases, fails = 0, []
-  for part in (_transform_grid, _control_flow, _jit_histories, _method_transforms):
+  for part in (_transform_grid, _control_flow, _jit_histories, _method_transforms, _autonames):
     try:
       cases += part(nn, jnp, jax, fails, tier)
     except Exception as e:  # noqa
@@ -426,7 +505,7 @@ def run(tier, seed):
       break
   return dict(name=NAME, cases=cases, distinct=cases,
               bound='transforms {jit, remat, map_variables(params), map_variables(all)} x mutable {False, [stats], True} x dropout {0, .5}; '
-                    'cond pred x mutable; switch index 0..2 x mutable; while_loop trips {0,1,3} x mutable; 5 jit call histories of 3 steps + variable-structure history; method-level transforms {remat, jit, map_variables, cond, switch, while_loop} around a child used before/inside/after',
+                    'cond pred x mutable; switch index 0..2 x mutable; while_loop trips {0,1,3} x mutable; 5 jit call histories of 3 steps + variable-structure history; method-level transforms {remat, jit, map_variables, cond, switch, while_loop} around a child used before/inside/after; auto-named sub-modules inside and after cond / switch / while_loop; write inside the loop condition',
               failures=fails[:6], error=None)
 
 
